@@ -8,6 +8,8 @@
 package main
 
 import (
+	"bytes"
+	"encoding/binary"
 	"encoding/hex"
 	"fmt"
 	"io"
@@ -22,6 +24,7 @@ import (
 
 	"hop.computer/hop/certs"
 	"hop.computer/hop/keys"
+	"hop.computer/hop/kravatte"
 	"hop.computer/hop/transport"
 	"verif/harness/hopkit"
 	"verif/harness/rec"
@@ -48,12 +51,24 @@ func srvOpt(cfg string) hopkit.SrvOpt {
 		return hopkit.SrvOpt{Ident: ids[0], KEM: kems[0]}
 	case "vhosts": // literal, wildcard-suffix and catch-all patterns
 		return hopkit.SrvOpt{Ident: ids[0], KEM: kems[0], Extra: ids[1:3], ExtraKEM: kems[1:3], Patterns: []string{"a.example", "*.b.example", "*"}}
+	case "vhosts-strict": // named blocks only: a name that matches none of them has no certificate
+		return hopkit.SrvOpt{Ident: ids[0], KEM: kems[0], Extra: ids[1:2], ExtraKEM: kems[1:2], Patterns: []string{"a.example", "*.b.example"}}
 	case "hidden1":
 		return hopkit.SrvOpt{Ident: ids[0], KEM: kems[0], Hidden: true}
 	case "hidden2":
 		return hopkit.SrvOpt{Ident: ids[0], KEM: kems[0], Hidden: true, Extra: ids[1:3], ExtraKEM: kems[1:3], Patterns: []string{"a.example", "*.b.example", "*"}}
 	}
 	panic(cfg)
+}
+
+func nvhOf(cfg string) int {
+	switch cfg {
+	case "vhosts", "hidden2":
+		return 3
+	case "vhosts-strict":
+		return 2
+	}
+	return 1
 }
 
 func hiddenCfg(cfg string) bool { return cfg == "hidden1" || cfg == "hidden2" }
@@ -194,6 +209,24 @@ func catalogue(genuine map[string][]byte, liveSid []byte, thorough bool, rng *ra
 	return
 }
 
+// sealTrivial builds a transport-layer datagram for session sid, sealed under a key of 32 equal bytes.
+func sealTrivial(mt byte, sid []byte, ctr uint64, keyByte byte) []byte {
+	pkt := []byte{mt, 0, 0, 0}
+	pkt = append(pkt, sid...)
+	var c [8]byte
+	binary.BigEndian.PutUint64(c[:], ctr)
+	pkt = append(pkt, c[:]...)
+	aead, err := kravatte.NewSANSE(bytes.Repeat([]byte{keyByte}, transport.KeyLen))
+	if err != nil {
+		panic(err)
+	}
+	body := []byte("forged")
+	if mt == byte(transport.MessageTypeControl) {
+		body = []byte{byte(transport.ControlMessageClose)}
+	}
+	return aead.Seal(pkt, nil, body, pkt[:transport.AssociatedDataLen])
+}
+
 func must(err error) {
 	if err != nil {
 		panic(err)
@@ -271,10 +304,7 @@ func hostileCerts(real []byte, rng *rand.Rand) (out [][]byte) {
 // CONTENT (server name, certificate bytes) is hostile.  Nothing here needs a key the adversary does not own.
 func envelope(cfg, state string, rng *rand.Rand, w *rec.W) {
 	wd := hopkit.NewWorld()
-	nvh := 1
-	if cfg == "vhosts" || cfg == "hidden2" {
-		nvh = 3
-	}
+	nvh := nvhOf(cfg)
 	k := 0
 	logCase := func(class string, n int, hexs string) {
 		w.Ev("case", "k", k, "class", class, "len", n, "src", "-", "hex", hexs)
@@ -382,7 +412,9 @@ func envelope(cfg, state string, rng *rand.Rand, w *rec.W) {
 	w.Ev("done", "cases", k)
 }
 
-func certsName(t byte, label []byte) certs.Name { return certs.Name{Type: certs.IDType(t), Label: label} }
+func certsName(t byte, label []byte) certs.Name {
+	return certs.Name{Type: certs.IDType(t), Label: label}
+}
 
 func child(cfg, state string, seed int64, thorough bool, out string) {
 	w := rec.Must(out)
@@ -397,13 +429,10 @@ func child(cfg, state string, seed int64, thorough bool, out string) {
 	wd := hopkit.NewWorld()
 	s := wd.NewServer(sa, srvOpt(cfg))
 	genuine := map[string][]byte{}
-	var liveSid []byte
+	var liveSid, pendingSid []byte
 	var c1 *hopkit.Cli
 	var h1 *transport.Handle
-	nvh := 1
-	if cfg == "vhosts" || cfg == "hidden2" {
-		nvh = 3
-	}
+	nvh := nvhOf(cfg)
 	// genuine material from a side handshake (another address) with the same server
 	{
 		w.Ev("case", "k", -1, "class", fmt.Sprintf("honest:handshake with virtual host #%d of %d", nvh, nvh), "len", 0, "src", "10.0.2.2:2002", "hex", "")
@@ -448,6 +477,9 @@ func child(cfg, state string, seed int64, thorough bool, out string) {
 		sent, reply := exchange(wd, s, c1, 2, false) // CH, CA delivered; SA held back
 		genuine["CA-pending"] = sent[1]
 		if len(reply) > 0 {
+			if f, ok := hopkit.FieldOf(reply[0], "sid"); ok {
+				pendingSid = append([]byte(nil), reply[0][f.Off:f.Off+f.Len]...)
+			}
 			c1.EP.Inject(reply[0], sa)
 			c1.WaitStep()
 			for _, d := range wd.Net.TakeFrom(c1.EP) { // the genuine ClientAuth, not delivered
@@ -485,6 +517,17 @@ func child(cfg, state string, seed int64, thorough bool, out string) {
 	}
 	w.Ev("group", "cfg", cfg, "state", state, "genuine", len(genuine))
 	cat := catalogue(genuine, liveSid, thorough, rng)
+	if pendingSid != nil {
+		// the session id of a reserved, not yet finished session is visible in the ServerAuth: transport and control
+		// datagrams for it, correctly sealed under keys anybody can guess (what a half-initialised session would hold)
+		for _, mt := range []byte{byte(transport.MessageTypeTransport), byte(transport.MessageTypeControl)} {
+			for _, kb := range []byte{0x00, 0xff} {
+				for _, ctr := range []uint64{0, 1, 2} {
+					cat = append(cat, junk{fmt.Sprintf("zerokey:TR-pending type=%02x key=%02x", mt, kb), sealTrivial(mt, pendingSid, ctr, kb)})
+				}
+			}
+		}
+	}
 	rng.Shuffle(len(cat), func(i, j int) { cat[i], cat[j] = cat[j], cat[i] })
 	batch := 40
 	for k, j := range cat {
@@ -564,6 +607,9 @@ func main() {
 				fmt.Println(c, s)
 			}
 		}
+		// named blocks only (a name may match no block): the states in which a server name is looked up
+		fmt.Println("vhosts-strict", "env-sni")
+		fmt.Println("vhosts-strict", "pending")
 		return
 	}
 	cfg, state := os.Args[2], os.Args[3]
